@@ -17,6 +17,23 @@ desc: UNBOUNDED version of C17.coder_normal: the while(!user_abort) loop of the 
 assume: lzma_code/io_read/io_write/io_fix_src_pos/message_xxx/hardware_threads_is_mt are stubs with fresh nondeterministic results at every call; --block-list is not in use; termination of the loop is not proved (no decreases clause)
 */
 
+/*@obligation
+id: C17.coder_passthru.loop
+props: C17 C18
+entry: h_coder_passthru_lc
+flags: xz
+loopcontracts: yes
+unwind: 3
+nondet_volatile: user_abort
+fn: coder_passthru
+sentinels: 2
+expect: 10
+replay: none
+timeout: 900
+desc: UNBOUNDED version of C17.coder_passthru (hook VERIF_CODER_PASSTHRU_LOOP_CONTRACT): invariant = nothing failed so far and bytes written + bytes pending == bytes read; on every exit the result is true only if no io_write and no io_read failed, no signal was seen, and everything that was read has been written (the copy ended at a read that returned 0); for any number of rounds
+assume: io_read/io_write/message_progress_update are stubs with fresh nondeterministic results at every call; termination is not proved
+*/
+
 #include "verif.h"
 #include <stdint.h>
 #include <stddef.h>
@@ -47,6 +64,13 @@ static struct in IN VERIF_IN_INIT;
 	__CPROVER_loop_invariant(action != LZMA_FULL_BARRIER || (block_remaining == 0)) \
 	__CPROVER_loop_invariant(action == LZMA_RUN || action == LZMA_SYNC_FLUSH || action == LZMA_FULL_BARRIER || action == LZMA_FINISH)
 
+#define VERIF_CODER_PASSTHRU_LOOP_CONTRACT \
+	__CPROVER_assigns(strm, G, *pair) \
+	__CPROVER_loop_invariant(!G.read_failed && !G.write_failed && !G.write_bad_args) \
+	__CPROVER_loop_invariant(strm.avail_in <= IO_BUFFER_SIZE) \
+	__CPROVER_loop_invariant(G.written + strm.avail_in == IN.avail_in + G.read_total)
+
+static bool g_passthru;
 #include "coder.c"
 
 /* fresh nondeterministic values at every call (no scripts: the number of calls is unbounded) */
@@ -86,7 +110,7 @@ bool io_write(file_pair *pair, const io_buf *buf, size_t size)
 {
 	(void)pair;
 	++G.writes;
-	if (buf != &out_buf || size != IO_BUFFER_SIZE - strm.avail_out) G.write_bad_args = true;
+	if (g_passthru ? (buf != &in_buf || size != strm.avail_in) : (buf != &out_buf || size != IO_BUFFER_SIZE - strm.avail_out)) G.write_bad_args = true;
 	if (nondet_verif_u8() & 1) { G.write_failed = true; return true; }
 	G.written += size;
 	return false;
@@ -126,6 +150,7 @@ void h_coder_normal_lc(void)
 	const lzma_stream init = LZMA_STREAM_INIT; strm = init;
 	strm.next_in = in_buf.u8; strm.avail_in = IN.avail_in;
 
+	g_passthru = false;   /* statics are not reliably zero under the contract instrumentation: set explicitly */
 	const bool success = coder_normal(&PAIR);
 
 	if (success) {
@@ -140,4 +165,23 @@ void h_coder_normal_lc(void)
 	if (G.write_failed || G.read_failed) { ASSERT(!success, "a failed read or write is never a success"); REACH(lc_io_failed); }
 	if (!G.read_failed) ASSERT(G.consumed + strm.avail_in == IN.avail_in + G.read_total, "input accounting: bytes consumed by the coder + bytes still pending == bytes read (the coder is only fed bytes that were read)");
 	REACH_IF(!success && !G.write_failed && !G.read_failed, lc_other_failure);
+}
+
+
+void h_coder_passthru_lc(void)
+{
+	HAVOC(IN, struct in);
+	ASSUME(IN.avail_in <= IO_BUFFER_SIZE && IN.src_eof <= 1);
+	memset(&G, 0, sizeof(G)); memset(&PAIR, 0, sizeof(PAIR));
+	PAIR.src_name = NAME; PAIR.src_eof = IN.src_eof;
+	g_passthru = true;
+	const lzma_stream init = LZMA_STREAM_INIT; strm = init;
+	strm.next_in = in_buf.u8; strm.avail_in = IN.avail_in;
+	const bool success = coder_passthru(&PAIR);
+	if (success) {
+		ASSERT(!G.write_failed && !G.read_failed && !G.write_bad_args, "success only if nothing failed");
+		ASSERT(strm.avail_in == 0 && G.written == IN.avail_in + G.read_total, "everything read was written");
+		REACH(ptl_success);
+	}
+	if (G.write_failed || G.read_failed) { ASSERT(!success, "a failed read or write is never a success"); REACH(ptl_failed); }
 }
